@@ -144,6 +144,7 @@ METHODS = {
     'startswith': 'scalar', 'endswith': 'scalar', 'strip': 'scalar', 'match': 'scalar', 'groups': 'scalar',
     'group': 'scalar', 'flush': 'scalar', 'write': 'scalar', 'warn': 'scalar', 'system': 'scalar',
     # scipy spline objects
+    '__new__': 'fresh',            # cls.__new__(type(self)): a new, empty object
     'get_coeffs': 'fresh', 'get_knots': 'fresh', 'from_spline': 'fresh',
 }
 
